@@ -1715,6 +1715,8 @@ class SymEx:
             return self._gcache[key]
         self._gcache[key] = None
         v = None
+        if isinstance(node, (ast.Dict, ast.List, ast.Set, ast.Call)) and self.M.global_is_mutated(mod, name):
+            return None         # changed at run time: what it holds when read is not what the module body wrote
         if _table_like(node) and not isinstance(node, ast.Name):
             self.frames.append(self.M.module_func(mod))
             saved = self.bv_depth
